@@ -135,8 +135,29 @@ class CallGraph:
             if exact:
                 norm = lambda t: (t or "").replace("std::string", "std::basic_string<char>").replace(" ", "")
                 ex = set(norm(t) for t in exact)
-                narrowed = [f for f in out if norm(f.get("cls")) in ex]
-                if narrowed:
+                # what an object of each exact class runs: its own definition, the copy it inherits from an intermediate base
+                # (hierarchy.py), or the nearest base's definition
+                name = q.split("::")[-1]
+                narrowed = []
+                complete = True
+                for t in ex:
+                    found = [f for f in self.facts.functions.values() if norm(f.get("cls")) == t and f["qn"].split("::")[-1] == name and
+                             f["sig"] == cal.get("sig", [])]
+                    cur = [r_ for r_ in self.facts.records if norm(r_) == t]
+                    depth = 0
+                    while not found and cur and depth < 6:
+                        nxt = []
+                        for c_ in cur:
+                            for b_ in (self.facts.records.get(c_) or {}).get("bases", []):
+                                nxt.append(b_["t"])
+                                found += [f for f in self.facts.functions.values() if f.get("cls") == b_["t"] and
+                                          f["qn"].split("::")[-1] == name and f["sig"] == cal.get("sig", []) and f.get("body") is not None]
+                        cur = nxt
+                        depth += 1
+                    if not found:
+                        complete = False
+                    narrowed += [f for f in found if f not in narrowed]
+                if narrowed and complete:
                     out = narrowed
         return out
 
